@@ -37,6 +37,8 @@ pub enum Form {
     SetPSetP,
     SetPRmP,
     SetPEmpty,
+    /// the property is set to the value it already has (a re-assertion: still a change with a timestamp)
+    SetPReassert,
     /// a second task nobody has seen yet is created and deleted again (no update in between)
     T2CreateDelete,
     /// ... created, given a property of this replica's own, and deleted
@@ -45,12 +47,12 @@ pub enum Form {
 
 pub const FORMS: &[Form] = &[
     Form::Nothing, Form::SetP, Form::SetQ, Form::RmP, Form::Delete, Form::CreateT2, Form::SetPSame, Form::RmQ, Form::DelCreate, Form::DelCreateSetP,
-    Form::SetPDelete, Form::SetPSetP, Form::SetPRmP, Form::SetPEmpty, Form::T2CreateDelete, Form::T2CreateSetDelete,
+    Form::SetPDelete, Form::SetPSetP, Form::SetPRmP, Form::SetPEmpty, Form::T2CreateDelete, Form::T2CreateSetDelete, Form::SetPReassert,
 ];
 
 impl Form {
     fn simple(self) -> bool {
-        matches!(self, Form::Nothing | Form::SetP | Form::SetQ | Form::RmP | Form::Delete | Form::CreateT2 | Form::SetPSame | Form::RmQ | Form::SetPEmpty | Form::T2CreateDelete | Form::T2CreateSetDelete)
+        matches!(self, Form::Nothing | Form::SetP | Form::SetQ | Form::RmP | Form::Delete | Form::CreateT2 | Form::SetPSame | Form::RmQ | Form::SetPEmpty | Form::T2CreateDelete | Form::T2CreateSetDelete | Form::SetPReassert)
     }
     fn deletes_t2(self) -> bool {
         matches!(self, Form::T2CreateDelete | Form::T2CreateSetDelete)
@@ -89,6 +91,7 @@ fn suffix(form: Form, r: usize, tstamp: i64) -> Vec<AbsOp> {
         Form::CreateT2 => vec![AbsOp::Create(t2()), AbsOp::Set(t2(), format!("own{r}"), val(r, 9), at)],
         Form::SetPSame => vec![AbsOp::Set(t, "p".into(), "S".into(), at)],
         Form::SetPEmpty => vec![AbsOp::Set(t, "p".into(), String::new(), at)],
+        Form::SetPReassert => vec![AbsOp::Set(t, "p".into(), "0".into(), at)],
         Form::T2CreateDelete => vec![AbsOp::Create(t2()), AbsOp::Delete(t2())],
         Form::T2CreateSetDelete => vec![AbsOp::Create(t2()), AbsOp::Set(t2(), format!("own{r}"), val(r, 9), at), AbsOp::Delete(t2())],
         Form::DelCreate => vec![AbsOp::Delete(t), AbsOp::Create(t)],
@@ -183,6 +186,7 @@ fn t1_expect(sc: &Scenario) -> Option<BTreeMap<(Uuid, String), BTreeSet<Option<S
                     (Form::SetP, "p") | (Form::SetQ, "q") => cands.push((sc.stamps[r], Some(val(r, 1)))),
                     (Form::SetPSame, "p") => cands.push((sc.stamps[r], Some("S".into()))),
                     (Form::SetPEmpty, "p") => cands.push((sc.stamps[r], Some(String::new()))),
+                    (Form::SetPReassert, "p") => cands.push((sc.stamps[r], Some("0".to_string()))),
                     (Form::RmP, "p") | (Form::RmQ, "q") => cands.push((sc.stamps[r], None)),
                     _ => {}
                 }
@@ -211,7 +215,7 @@ fn classify(sc: &Scenario) -> &'static str {
     let mut stamps = sc.stamps.clone();
     stamps.sort();
     let tie = stamps.windows(2).any(|w| w[0] == w[1]);
-    let same = sc.forms.iter().filter(|f| **f == Form::SetPSame).count() >= 2 || sc.forms.iter().filter(|f| **f == Form::RmP).count() >= 2 || sc.forms.iter().filter(|f| **f == Form::RmQ).count() >= 2;
+    let same = sc.forms.iter().filter(|f| **f == Form::SetPSame).count() >= 2 || sc.forms.iter().filter(|f| **f == Form::RmP).count() >= 2 || sc.forms.iter().filter(|f| **f == Form::RmQ).count() >= 2 || sc.forms.iter().filter(|f| **f == Form::SetPReassert).count() >= 2;
     match (tie, same) {
         (_, true) => "same-value",
         (true, false) => "tie",
@@ -286,7 +290,7 @@ pub fn judge(sc: &Scenario, tag: &str, index: u64, out: &mut CaseOut) {
     if !sc.forms.iter().any(|f| f.deletes()) {
         let touch = |f: Form| -> Vec<&'static str> {
             match f {
-                Form::SetP | Form::RmP | Form::SetPSame | Form::SetPSetP | Form::SetPRmP | Form::SetPEmpty => vec!["p"],
+                Form::SetP | Form::RmP | Form::SetPSame | Form::SetPSetP | Form::SetPRmP | Form::SetPEmpty | Form::SetPReassert => vec!["p"],
                 Form::SetQ | Form::RmQ => vec!["q"],
                 _ => vec![],
             }
@@ -301,6 +305,7 @@ pub fn judge(sc: &Scenario, tag: &str, index: u64, out: &mut CaseOut) {
                     Form::SetP | Form::SetQ => Some(val(r, 1)),
                     Form::SetPSame => Some("S".into()),
                     Form::SetPEmpty => Some(String::new()),
+                    Form::SetPReassert => Some("0".into()),
                     Form::SetPSetP => Some(val(r, 2)),
                     _ => None,
                 };
